@@ -109,10 +109,11 @@ theorem fileNameToSplit_congr {e e' : Bytes} (h : e.take 11 = e'.take 11) : file
 /-! ## the invariant -/
 
 /-- a2kit's key of the entry and the reader's name of it agree, neither part contains a dot, and a directory has a
-non-empty name (the reader lists the files of a directory without a name as if they were in its parent) -/
+non-empty name (the reader lists the files of a directory without a name as if they were in its parent), and no part
+contains a slash (the reader's paths are slash-separated) -/
 def NameGood (e : Bytes) : Prop :=
   ∃ nm ty, fileNameToSplit e = some (nm, ty) ∧ entName e = (if ty = [] then nm else nm ++ [46] ++ ty) ∧ 46 ∉ nm ∧ 46 ∉ ty ∧
-    ((e.getD 11 0 / 16) % 2 = 1 → entName e ≠ [])
+    ((e.getD 11 0 / 16) % 2 = 1 → entName e ≠ []) ∧ 47 ∉ nm ∧ 47 ∉ ty
 
 /-- after the first end-of-directory mark (first name byte 0) every entry is an end mark: what `format`, `create` and
 `expand_directory` establish by zeroing, and no operation destroys (`delete` marks with 0xE5, never with 0) -/
